@@ -21,7 +21,13 @@ type SimReader struct {
 	Reads int
 	Short int
 	EOFs  int
+	// FailAt >= 0: the device fails once FailAt bytes have been served (a read error in mid-stream, not EOF)
+	FailAt int
+	Failed bool
 }
+
+// ErrSimDiskRead is the read error injected by the simulated disk.
+var ErrSimDiskRead = errors.New("simulated disk: read failed (I/O error)")
 
 const (
 	ReadWhole = iota
@@ -34,7 +40,7 @@ const (
 var readModeNames = []string{"whole", "one-byte", "random-short", "chunk+EOF-with-data"}
 
 func NewSimReader(t *Tape, data []byte) *SimReader {
-	r := &SimReader{data: data, mode: t.Draw("disk.readmode", numReadModes)}
+	r := &SimReader{data: data, mode: t.Draw("disk.readmode", numReadModes), FailAt: -1}
 	if r.mode == ReadShort || r.mode == ReadChunkEOF {
 		r.rng = t.Sub("disk.readseed")
 		r.chunk = 1 + t.Draw("disk.chunk", 64)
@@ -49,11 +55,19 @@ func (r *SimReader) Read(p []byte) (int, error) {
 	if len(p) == 0 {
 		return 0, nil
 	}
+	if r.FailAt >= 0 && r.pos >= r.FailAt {
+		r.Failed = true
+		return 0, ErrSimDiskRead
+	}
 	if r.pos >= len(r.data) {
 		r.EOFs++
 		return 0, io.EOF
 	}
 	n := len(p)
+	if r.FailAt >= 0 && n > r.FailAt-r.pos {
+		n = r.FailAt - r.pos // serve what precedes the bad sector, fail on the next call
+		p = p[:n]
+	}
 	switch r.mode {
 	case ReadByte:
 		n = 1
